@@ -96,7 +96,7 @@ UFrom(b, o, p, seen) ==
     ELSE LET i == Dec(Drop(b, o)) IN
          IF ~i.ok THEN UBad(p)
          ELSE LET l == Dec(Drop(b, o + i.n)) IN
-              IF ~l.ok \/ ~IsSmall(l.v) \/ o + i.n + l.n + ToNat(l.v) > Len(b) THEN UBad(p)
+              IF ~l.ok \/ ~IsSmall(l.v) \/ ToNat(l.v) > Len(b) \/ o + i.n + l.n + ToNat(l.v) > Len(b) THEN UBad(p)
               ELSE LET s    == o + i.n + l.n
                        body == SubSeq(b, s + 1, s + ToNat(l.v))
                        a    == Apply(p, i.v, body) IN
